@@ -9,6 +9,7 @@ package lua16
 import (
 	"fmt"
 	"math/rand"
+	"os"
 	"strings"
 )
 
@@ -25,7 +26,9 @@ type Case struct {
 	Identity bool `json:"identity,omitempty"`
 }
 
-var categories = []string{"spin", "recursion", "error", "wrongtype", "reach", "convert", "honest", "deep", "alloc", "convert", "spin"}
+// memory and nesting bombs are outside the property's claim (its quantifier says so): the "alloc" kinds and nesting
+// deeper than a few thousand levels are only generated when LUA16_BOMBS is set (exploratory, never part of a check)
+var categories = []string{"spin", "recursion", "error", "wrongtype", "reach", "convert", "honest", "deep", "convert", "spin"}
 
 func Generate(seed int64, secretLua, secretTxt, writePath string) *Case {
 	r := rand.New(rand.NewSource(seed*7919 + 13))
@@ -38,6 +41,9 @@ func Generate(seed int64, secretLua, secretTxt, writePath string) *Case {
 		"stableService": "web",
 	}
 	c.Category = categories[r.Intn(len(categories))]
+	if os.Getenv("LUA16_BOMBS") != "" && r.Intn(2) == 0 {
+		c.Category = []string{"alloc", "deep"}[r.Intn(2)]
+	}
 	pick := func(xs ...[2]string) {
 		x := xs[r.Intn(len(xs))]
 		c.Kind, c.Script = x[0], x[1]
@@ -119,7 +125,10 @@ func Generate(seed int64, secretLua, secretTxt, writePath string) *Case {
 		}
 	case "deep":
 		// well-formed but very deep or very wide values: conversion must stay bounded
-		depth := []int{50, 400, 3000, 20000, 100000, 1000000}[r.Intn(6)]
+		depth := []int{50, 400, 3000}[r.Intn(3)]
+		if os.Getenv("LUA16_BOMBS") != "" {
+			depth = []int{20000, 100000, 1000000}[r.Intn(3)]
+		}
 		c.Expect = "either"
 		pick(
 			[2]string{fmt.Sprintf("nest-list-%d", depth), fmt.Sprintf("local t = {} for i = 1, %d do t = {t} end return t", depth)},
